@@ -5,7 +5,7 @@ Driver ops of C19 (harness/cc/determinism.go, census19_suite.go):
   c19mods <rootname> <root> <graph>        module order of the html index
         (model: reachable files sorted by name; real: index.html)
   c19site <key>                            census tie: the regenerated table's entry
-  c19det <s|t|u|v><seed> <gen> <R> <keep> / c19dir <gen> <R> <dir> / c19hist <tok> <gen> <variant> <keep>
+  c19det <s|t|u|v|w><seed> <gen> <R> <keep> / c19dir <gen> <R> <dir> / c19hist <tok> <gen> <variant> <keep>
         (c19hist: the -out directory already holds other output; the model's output does not depend on it)
         a determinism run; the model is a function, its outputs over repetitions are
         one and the same: `ok same`
@@ -56,7 +56,7 @@ def c19NodeName (rootName : String) (root : Nat) (g : List (Nat × List (Inc × 
 def c19IsNat (s : String) : Bool := s.toNat?.isSome
 
 /-- program tokens of the harness: s/t/u/v followed by the generator seed -/
-def c19IsTok (s : String) : Bool := ["s", "t", "u", "v"].any (fun c => s.startsWith c)
+def c19IsTok (s : String) : Bool := ["s", "t", "u", "v", "w"].any (fun c => s.startsWith c)
 
 def stepDeterminism (op : String) (args : List String) : Option String :=
   match op, args with
